@@ -109,6 +109,11 @@ func main() {
 				ch = rw.mapRanges(f) || ch
 				ch = rw.yields(f, true) || ch
 			} else {
+				// (R3p: ranges over maps keyed by pointers - their order is a function of heap
+				// addresses, which differ from process to process - are owned everywhere)
+				rw.onlyPtrKeys = true
+				ch = rw.mapRanges(f) || ch
+				rw.onlyPtrKeys = false
 				ch = rw.yields(f, false) || ch
 				if !strings.HasSuffix(fname, ".pb.go") && !strings.HasSuffix(p.PkgPath, "/math") && !strings.Contains(p.PkgPath, "/simd") && !strings.HasSuffix(p.PkgPath, "/index/space") {
 					ch = rw.entryYields(f) || ch
@@ -169,6 +174,7 @@ type rewriter struct {
 	needSimrt   bool
 	needSimsync bool
 	knobSetters []string
+	onlyPtrKeys bool
 	atomicFields map[string]bool
 }
 
@@ -594,6 +600,11 @@ func (rw *rewriter) mapRanges(f *ast.File) bool {
 		mt, ok := tv.Type.Underlying().(*types.Map)
 		if !ok {
 			return nil
+		}
+		if rw.onlyPtrKeys {
+			if _, isPtr := mt.Key().Underlying().(*types.Pointer); !isPtr {
+				return nil
+			}
 		}
 		qual := func(p *types.Package) string { return rw.qualifier(p) }
 		mapTypeStr := types.TypeString(tv.Type, qual)
